@@ -2,7 +2,8 @@
 (* Trace validation: are executions recorded from the real ResourceManager (driven through real     *)
 (* step invocations) behaviours of Resources.tla?  One event = one driver command (begin p /         *)
 (* release p) issued at a quiescence point and the projected manager + invocation state at the next  *)
-(* quiescence point; every command is exactly one action of the spec.                                *)
+(* quiescence point; every command is exactly one action of the spec (followed, in the design       *)
+(* variant only, by the Wake steps of invocations it unblocked).                                      *)
 EXTENDS Resources, Json, IOUtils
 
 T == JsonDeserialize(IOEnv.TRACE_FILE)
